@@ -125,6 +125,9 @@ pub fn gen_history(seed: u64, idx: usize, to: Fmt, cl: &mut Classes) -> History 
         };
         // detection only where it names the call's format
         let from = if rng.chance(1, 3) && xt::verif::detect_slice(&bytes).ok().flatten().map(Fmt::from_xt) == Some(src) { None } else { Some(src) };
+        // with the format named, one reader in six is also interrupted now and then (what a signal does to a
+        // blocking read); under detection an interruption may change the detected format, so not there
+        let mode = if from.is_some() && !matches!(mode, Mode::Slice) && rng.chance(1, 6) { Mode::Reader(Sched::Interrupted(*rng.pick(&[1usize, 5, 64, 4096, 70000]), 2 + rng.below(6) as u64)) } else { mode };
         for d in call_docs {
             docs.push((d, src));
         }
@@ -168,7 +171,18 @@ pub fn judge(h_calls: &[Call], docs: &[(Val, Fmt)], to: Fmt, acc: &mut Acc) {
         expected.extend_from_slice(&o.out);
         singles.push(o.out);
     }
+    if h_calls.iter().any(|c| matches!(c.mode, Mode::Reader(Sched::Interrupted(..)))) {
+        acc.count("histories_with_an_interrupted_reader");
+    }
     if let Some(bad) = verdicts.iter().position(|v| !v.is_ok()) {
+        if matches!(verdicts[bad], Verdict::Err(_)) && matches!(h_calls[bad].mode, Mode::Reader(Sched::Interrupted(..))) {
+            // an error is an allowed answer to an interruption; what was written before it is still judged
+            acc.count("interrupted_call_answered_with_an_error");
+            if !expected.starts_with(&wlog.bytes) {
+                acc.violation(Violation { sig: format!("to={} output before an interrupted call's error is not a prefix of the concatenation", to.name()), case: case(), observed: format!("{} bytes written [{}]", wlog.bytes.len(), preview(&wlog.bytes, 80)), expected: "a prefix of the concatenation of the single-document translations".into() });
+            }
+            return;
+        }
         if matches!(verdicts[bad], Verdict::Err(_)) && is_documentless_yaml_slice(&h_calls[bad]) && known::listed("C03", "C02-yaml-documentless-stream") {
             acc.known("C02-yaml-documentless-stream", || format!("call {} input [{}]", bad, preview(&h_calls[bad].input, 40)));
             return;
@@ -297,7 +311,7 @@ pub fn run(ctx: &Ctx) -> i32 {
     let n_cli = ctx.size(400, 8000);
     let cli = crate::par::run(n_cli, 4, |i, acc| cli_case(seed, i, acc));
     acc.merge(cli);
-    let rule = format!("{} histories: N in {{0,1,2,3,4,5,17,300}} documents (scalars first, empty and large collections, strings padded so documents end at 8192/16384 +-2) distributed over 1-4 translate calls on one Translator, each call in its own source format (JSON/MessagePack/YAML, or TOML for one document), slice or reader under a schedule, explicit or detected, with every separator style the source allows (JSON none/blank/newlines; YAML '---', '--- value', '...'+'---', comments, blank lines, %YAML directives), targets JSON/MessagePack/YAML in turn; plus {} command-line invocations of the release binary over 2-4 input files in mixed formats (by extension or detected, one possibly on stdin) compared with separate invocations per file; distinct non-trivial = distinct (inputs, target) with >= 2 documents", n, n_cli);
+    let rule = format!("{} histories: N in {{0,1,2,3,4,5,17,300}} documents (scalars first, empty and large collections, strings padded so documents end at 8192/16384 +-2) distributed over 1-4 translate calls on one Translator, each call in its own source format (JSON/MessagePack/YAML, or TOML for one document), slice or reader under a schedule (one named-format reader in six also fails every 2nd-7th call with ErrorKind::Interrupted), explicit or detected, with every separator style the source allows (JSON none/blank/newlines; YAML '---', '--- value', '...'+'---', comments, blank lines, %YAML directives), targets JSON/MessagePack/YAML in turn; plus {} command-line invocations of the release binary over 2-4 input files in mixed formats (by extension or detected, one possibly on stdin) compared with separate invocations per file; distinct non-trivial = distinct (inputs, target) with >= 2 documents", n, n_cli);
     ev::finish(
         Finish {
             ctx,
@@ -307,7 +321,7 @@ pub fn run(ctx: &Ctx) -> i32 {
             extra: serde_json::Map::new(),
             exhaustive: false,
             min_distinct: 500,
-            must_reach: vec![("cli_multi_input_invocations".into(), 100), ("framing_checked".into(), 1000), ("n_docs_300".into(), 10), ("n_docs_0".into(), 10), ("n_calls_3".into(), 10), ("histories_with_short_write_writer".into(), 1000)],
+            must_reach: vec![("cli_multi_input_invocations".into(), 100), ("framing_checked".into(), 1000), ("n_docs_300".into(), 10), ("n_docs_0".into(), 10), ("n_calls_3".into(), 10), ("histories_with_short_write_writer".into(), 1000), ("histories_with_an_interrupted_reader".into(), 500)],
         },
         acc,
     )
